@@ -7,9 +7,15 @@ Definition M32 : Z := 4294967296.
 Definition H31 : Z := 2147483648.
 
 Definition u32 (x : Z) : Prop := 0 <= x < M32.
-Definition wrap (x : Z) : Z := x mod M32.
-Definition wadd (a b : Z) : Z := (a + b) mod M32.   (* u32::wrapping_add *)
-Definition wsub (a b : Z) : Z := (a - b) mod M32.   (* u32::wrapping_sub *)
+(* reduction mod 2^32; the three fast paths avoid a division when the model is
+   run (extracted Z is a binary inductive); U32Facts.wrap_spec: wrap x = x mod M32 *)
+Definition wrap (x : Z) : Z :=
+  if (0 <=? x) && (x <? M32) then x
+  else if (M32 <=? x) && (x <? 2 * M32) then x - M32
+  else if (- M32 <=? x) && (x <? 0) then x + M32
+  else x mod M32.
+Definition wadd (a b : Z) : Z := wrap (a + b).   (* u32::wrapping_add *)
+Definition wsub (a b : Z) : Z := wrap (a - b).   (* u32::wrapping_sub *)
 
 (* a.wrapping_sub(b) > (1 << 31) *)
 Definition mod_lt (a b : Z) : bool := H31 <? wsub a b.
